@@ -96,6 +96,7 @@ package xpath
 //@ iface namespaceURL.NamespaceURL() result
 //@   trusted        // a method of the client's navigator: assumed not to touch engine state
 //@   modifies nothing
+//@   ensures-assumed[deterministic] result == nav_nsurl(pos(self))
 //@ iface stringBuilder.Grow(n)
 //@   trusted
 //@   modifies nothing
@@ -115,6 +116,8 @@ package xpath
 //@ iface iterator.Current() result
 //@   modifies nothing
 //@   ensures[nonnil@C15] result != nil
+//@   ensures[current@C14,C13] is(self, *NodeIterator) ==> result == as(self, *NodeIterator).node
+//@   ensures-assumed[deterministic] is(self, iteratorFunc) ==> result == itcur(ref(self))
 
 // ---------------------------------------------------------------------------
 // Contracts of function-valued fields (every function stored there must conform)
@@ -214,30 +217,38 @@ package xpath
 //@   modifies nothing
 //@   ensures[nonnil@C15] result != nil
 //@ func nameFunc$1
-//@   props C15 C04 C05
+//@   props C15 C04 C05 C14
 //@   theory stream for C04 C05 C14
 //@   ensures[pure-arg@C04,C05] arg != nil ==> stateless(arg) || k(arg) == old(k(arg)) && epoch(arg) == old(epoch(arg))
 //@   conforms functionQuery.Func
+//@   ensures[context-node@C14] arg == nil ==> result == box(qname(old(pos(cur(t)))))
+//@   ensures[first-node@C14] arg != nil && v != nil ==> result == box(qname(pos(v)))
+//@   ensures[empty-set@C14] arg != nil && v == nil ==> result == box("")
 
 //@ func localNameFunc
 //@   props C15
 //@   modifies nothing
 //@   ensures[nonnil@C15] result != nil
 //@ func localNameFunc$1
-//@   props C15 C04 C05
+//@   props C15 C04 C05 C14
 //@   theory stream for C04 C05 C14
 //@   ensures[pure-arg@C04,C05] arg != nil ==> stateless(arg) || k(arg) == old(k(arg)) && epoch(arg) == old(epoch(arg))
 //@   conforms functionQuery.Func
+//@   ensures[context-node@C14] arg == nil ==> result == box(nav_local(old(pos(cur(t)))))
+//@   ensures[first-node@C14] arg != nil && v != nil ==> result == box(nav_local(pos(v)))
+//@   ensures[empty-set@C14] arg != nil && v == nil ==> result == box("")
 
 //@ func namespaceFunc
 //@   props C15
 //@   modifies nothing
 //@   ensures[nonnil@C15] result != nil
 //@ func namespaceFunc$1
-//@   props C15 C04 C05
+//@   props C15 C04 C05 C14
 //@   theory stream for C04 C05 C14
 //@   ensures[pure-arg@C04,C05] arg != nil ==> stateless(arg) || k(arg) == old(k(arg)) && epoch(arg) == old(epoch(arg))
 //@   conforms functionQuery.Func
+//@   ensures[namespace-uri@C14] v != nil ==> result == box(ite(hasMethod(v, "NamespaceURL"), nav_nsurl(pos(v)), nav_prefix(pos(v))))
+//@   ensures[empty-set@C14] arg != nil && v == nil ==> result == box("")
 
 //@ func booleanFunc
 //@   props C15
@@ -567,7 +578,10 @@ package xpath
 //@ func axisPredicate$1
 //@   props C15 C01 C14
 //@   conforms *.Predicate
-//@   captures root != nil
+//@   theory stream for C14 C01
+//@   captures root != nil && nametest == (root.LocalName != "" || root.Prefix != "")
+//@   ensures[node-test@C14,C01] result == (typeOK(root, old(pos(n))) && (!nametest || nameOK(root, n, old(pos(n)))))
+//@   ensures[cursor-untouched@C14,C01] pos(n) == old(pos(n))
 
 // ---------------------------------------------------------------------------
 // Value conversions and comparison cells (func.go, operator.go)
@@ -1625,3 +1639,16 @@ package xpath
 //@ func isDigit
 //@   pure
 //@ define swf(s) = 0 <= s.pos && s.pos <= len(s.text) && 1 <= s.currSize && s.currSize <= 4 && s.currSize <= s.pos + 1
+
+// ---------------------------------------------------------------------------
+// C14: node tests. nodetype_/nav_local/nav_prefix/nav_nsurl are what the client's navigator
+// reports at a position (assumed deterministic functions of the position).
+//@ define typeOK(r, p) = r.typeTest == nodetype_(p) || r.typeTest == allNode
+//@ define nameOK(r, n, p) = ite(hasMethod(n, "NamespaceURL") && r.hasNamespaceURI, r.LocalName == nav_local(p) && r.namespaceURI == nav_nsurl(p), r.LocalName == nav_local(p) && r.Prefix == nav_prefix(p))
+//@ define qname(p) = ite(nav_prefix(p) == "", nav_local(p), nav_prefix(p) + ":" + nav_local(p))
+//@ func (*parser).parseNodeTest$1
+//@   props C14
+//@   conforms newAxisNode.opts[]
+//@   panics "prefix "
+//@   ensures[bound-prefix@C14] prefix != "" && p.namespaces != nil ==> a.hasNamespaceURI && has(p.namespaces, prefix) && a.namespaceURI == p.namespaces[prefix]
+//@   ensures[no-map@C14] prefix == "" || p.namespaces == nil ==> a.hasNamespaceURI == old(a.hasNamespaceURI)
